@@ -166,7 +166,7 @@ def normalise(ev):
             return None
         ins = parse_debug(ev["dbg"])
         return {"e": "step", "op": ins["op"], "args": ins["args"], "pc": ev["pc"], "pc1": ev["pc1"], "d0": ev["d0"],
-                "d1": ev["d1"], "b0": ev["b0"], "b1": ev["b1"], "st": ev["st"], "ek": parse_debug(ev.get("ek") or "None")["op"],
+                "d1": ev["d1"], "b0": ev["b0"], "b1": ev["b1"], "f0": ev["f0"], "f1": ev["f1"], "tid": ev["tid"], "st": ev["st"], "ek": parse_debug(ev.get("ek") or "None")["op"],
                 "v0": _side(ev["v0"], True), "v1": _side(ev["v1"], False)}
     if e == "rewrite":
         return {"e": "rewrite", "before": [parse_debug(x) for x in ev["before"]],
